@@ -136,6 +136,21 @@ def run(ctx):
         exe = [x for x in nodes_calling(g, lambda c: isinstance(c.func, ast.Attribute) and c.func.attr == 'execute') if x.lineno > t.lineno]
         ok = all(b.id in g.reach(ts) for b in begin) and g.exit.id not in g.reach(ts, avoid=exe)
     ctx.ob('C17-BEGIN.sqlite-begin-immediate', sq, begin[0].ast if begin else sq.node, ok, '' if ok else 'immediate SQLite session does not execute BEGIN IMMEDIATE')
+    # the flag that says "a transaction is open" is recorded only after BEGIN succeeded: otherwise a failed BEGIN (database is locked) leaves
+    # in_transaction True on a connection in autocommit mode, BEGIN is never retried and every later write is durable at once
+    flags = [x for x in g.nodes if x.kind == 'stmt' and isinstance(x.ast, ast.Assign) and any(dotted(t_) == cache + '.in_transaction' for t_ in x.ast.targets)
+             and isinstance(x.ast.value, ast.Constant) and x.ast.value.value is True]
+    begin_exec = [x for x in nodes_calling(g, lambda c: isinstance(c.func, ast.Attribute) and c.func.attr == 'execute') if begin and any(x.id in g.reach([b], include_src=False) for b in begin)]
+    for fl_ in flags:
+        okf = bool(begin_exec) and g.dominated(fl_, begin_exec, edge_ok=lambda x, y, lab: True) and not any(fl_.id in {p_ for p_, lab in g.pred[be.id]} for be in begin_exec)
+        # dominated by the execute node is not enough: the flag must lie on the *normal* continuation of the execute (not be reachable only... ) -- the execute's exception edge never reaches it
+        if okf:
+            exc_succ = [y for be in begin_exec for y, lab in g.succ[be.id] if lab == 'exc']
+            okf = fl_.id not in g.reach(exc_succ)
+        ctx.ob('C17-BEGIN.sqlite-flag-only-after-begin-succeeded', sq, fl_.ast, okf,
+               '' if okf else '`%s` is not confined to the normal continuation of the BEGIN IMMEDIATE statement: when BEGIN fails the session believes a transaction is '
+               'open, never begins one, and its later writes are committed one by one' % norm(fl_.ast), node=fl_.ast)
+    ctx.floor('C17-BEGIN', len(flags), 1, 'in_transaction = True in SQLite set_transaction_mode')
 
     # ---------------------------------------------------------------- ABORT
     for qual, what in (('SessionCache.flush_and_commit', 'flush'), ('SessionCache.commit', 'flush'), ('SessionCache.commit', 'commit')):
@@ -176,6 +191,7 @@ def run(ctx):
 
 
 MUTANTS = [
+    dict(id='C17-b1', file='pony/orm/dbproviders/sqlite.py', fn='SQLiteProvider.set_transaction_mode', old="                cursor.execute(sql)\n                cache.in_transaction = True\n", new="                cache.in_transaction = True\n                cursor.execute(sql)\n", expect='C17-BEGIN.sqlite-flag'),
     dict(id='C17-m1', file='pony/orm/core.py', fn='Entity._save_deleted_', old='database._exec_sql(sql, arguments, start_transaction=True)', new='database._exec_sql(sql, arguments)', expect='C17-DML.statement'),
     dict(id='C17-m2', file='pony/orm/core.py', fn='Entity._save_updated_', old='cursor = database._exec_sql(sql, arguments, start_transaction=True)', new='cursor = database._exec_sql(sql, arguments)', expect='C17-DML.statement'),
     dict(id='C17-m3', file='pony/orm/core.py', fn='Query.delete', old='        cache.immediate = True\n        cache.prepare_connection_for_query_execution()', new='        cache.prepare_connection_for_query_execution()', expect='C17-DML.statement'),
